@@ -44,7 +44,7 @@ Definition run_bauth (c : value) : value :=
   | VL (VB realm :: VL creds :: VL ops0 :: orc :: _) =>
       match get_pairs creds, dec_ops ops0, dec_env orc with
       | Some table, Some ops, Some e =>
-          let p := {| on_headers := fun rq => basic_aops table realm (hm_value (B "Authorization") (q_headers rq));
+          let p := {| on_headers := fun rq _ => basic_aops table realm (hm_value (B "Authorization") (q_headers rq));
                       on_ready := []; on_finished := []; hdr_after := true |} in
           VL (map ev_value (snd (run_ops e p init_sock ops)))
       | _, _, _ => verr
